@@ -579,10 +579,21 @@ fn run_scenario(seed: u64, prof: &Profile, out: &mut Vec<String>, rep: &mut Repo
                 } else {
                     "done"
                 };
-                let bytes = response_bytes(p.id, p.app, typ, tok, &mut rng);
+                let mut bytes = response_bytes(p.id, p.app, typ, tok, &mut rng);
                 let ev = format!("\"ev\":\"SrvSend\",\"id\":{},\"typ\":\"{}\",\"tok\":{}", p.id, typ, tok);
                 if prof.split && bytes.len() > 4 && rng.gen_bool(0.4) {
-                    let cut = rng.gen_range(1..bytes.len());
+                    // half of the split messages carry the outer length in the long form (two to four length octets, as
+                    // Active Directory writes every length), and half of those are cut inside that header
+                    let mut cut = rng.gen_range(1..bytes.len());
+                    if bytes[1] < 0x80 && rng.gen_bool(0.5) {
+                        let k = rng.gen_range(2..=4usize);
+                        let body = bytes[1] as u32;
+                        let mut w = vec![bytes[0], 0x80 | k as u8];
+                        w.extend_from_slice(&body.to_be_bytes()[4 - k..]);
+                        w.extend_from_slice(&bytes[2..]);
+                        bytes = w;
+                        cut = if rng.gen_bool(0.5) { rng.gen_range(1..2 + k) } else { rng.gen_range(1..bytes.len()) };
+                    }
                     emit(format!("\"ev\":\"SrvPartial\",\"id\":{},\"sent\":{},\"of\":{}", p.id, cut, bytes.len()));
                     io.push_bytes(&bytes[..cut]);
                     held = Some((bytes[cut..].to_vec(), ev));
@@ -1509,6 +1520,33 @@ fn main() {
         }
         f.flush().unwrap();
         rep.write(&a[5]);
+        return;
+    }
+    if a.len() >= 5 && a[1] == "deepq" {
+        // conn-run deepq <out.ndjson> <depth,depth,..> <report>: the peer stops reading, one request blocks the driver in its
+        // write, `depth` untimed operations queue up behind it (more than any plausible bound of an internal queue), then one
+        // operation with a timeout of two ticks; three ticks; the peer reads again and everything is answered
+        let mut rep = Report::new("conn-deepq");
+        let mut out = vec![];
+        for (k, depth) in a[3].split(',').map(|d| d.parse::<usize>().unwrap()).enumerate() {
+            let mut sc: Vec<serde_json::Value> = vec![json!({"a": "stall"})];
+            for o in 1..=depth {
+                sc.push(json!({"a": "start", "o": format!("o{}", o), "k": "single", "t": 0, "ad": false, "tg": "none"}));
+            }
+            sc.push(json!({"a": "start", "o": format!("o{}", depth + 1), "k": "single", "t": 2, "ad": false, "tg": "none"}));
+            for _ in 0..3 {
+                sc.push(json!({"a": "tick"}));
+            }
+            sc.push(json!({"a": "resume"}));
+            let followed = run_script(k as u64 + 1, &sc, &mut out, &mut rep);
+            rep.count(if followed { "deepq_scripts_followed" } else { "deepq_scripts_cut_short" });
+        }
+        let mut f = std::io::BufWriter::new(std::fs::File::create(&a[2]).unwrap());
+        for l in &out {
+            writeln!(f, "{}", l).unwrap();
+        }
+        f.flush().unwrap();
+        rep.write(&a[4]);
         return;
     }
     if a.len() >= 5 && a[1] == "flood" {
